@@ -25,6 +25,9 @@ CHECKS = {
     "C11": ("2 (C11)", "One step of the real _process_message from every ConnectionState x role with a message of every kind whose header "
                   "defects are solver variables (presence of 49/56/34, CompIDs, BeginString; MsgSeqNum below/at/above), then one further "
                   "symbolic input and a send attempt after a disconnect."),
+    "C12": ("2 (C12)", "One arbitrary tick of the real heartbeat_timer_task with symbolic period, clock, silence and outstanding-TestRequest age "
+                  "(lemmas with a two-tick tolerance), inbound TestRequest / Heartbeat handling with symbolic ids, and whole virtual-time "
+                  "scenarios (dead / responsive / chatty peer) unrolled through the real task for small periods."),
     "C08": ("2 (C08)", "Operation sequences on the real Journaler (FakeSQLite) with the crash slot as a solver variable over every point "
                   "before/after every SQL statement and commit, plus normal close; after the crash a fresh Journaler must show a state "
                   "at an operation boundary. Counterexamples and sampled witnesses are re-run on the real sqlite3 with os._exit in a child."),
